@@ -141,6 +141,8 @@ class FormStream:
         self.v, self.asgi, self.opts = v, asgi, opts
         self.ops = []
         self.parts_delimited = 0
+        self.dash = b'--BOUNDARY'
+        self.closing = False  # ghost: the delimiter consumed last is the closing one (it is followed by "--")
 
     def _ret(self, x):
         return Ready(x) if self.asgi else x
@@ -158,12 +160,24 @@ class FormStream:
             self.frame = self.v.ctx.interp.frames[-1]  # the iterating frame: lets the harness read the ghost "parts yielded so far"
             # ownership: the mutable objects that already exist when an iteration starts (a part yielded earlier may hold them)
             self.objects_at_iteration_start = {id(x) for x in self.frame.locals.values() if isinstance(x, (dict, list))}
+            ys = self.frame.locals['$yields']
+            n = ys.length() if hasattr(ys, 'length') else len(ys)
+            self.v.check('boundary-searched-as-dash-boundary-first-then-with-a-leading-crlf',
+                         And(delimiter == Ite(n == 0, self.dash, b'\r\n' + self.dash), consume_delimiter is True))
+        self._not_after_close('pipe_until')
         self._maybe_fail('pipe_until')
+        # the body decides here whether the delimiter just consumed is the closing one ("--BOUNDARY--"): also the very first one (a form of zero parts)
+        self.closing = self.v.choose(2, 'terminator?') == 1
         return self._ret(None)
+
+    def _not_after_close(self, what):
+        # "iterating yields the same number of parts": once the closing delimiter has been consumed nothing more is searched, read as a header
+        # block or delimited as a part -- the iteration just ends
+        self.v.check('closing-delimiter-ends-the-form', not self.closing)
 
     def peek(self, n=-1):
         self.ops.append('peek')
-        return self._ret(b'--' if self.v.choose(2, 'terminator?') == 1 else b'\r\n')
+        return self._ret(b'--' if self.closing else b'\r\n')
 
     def read(self, n=-1):
         self.ops.append('read')
@@ -171,6 +185,7 @@ class FormStream:
 
     def read_until(self, delimiter, size=-1, consume_delimiter=False):
         self.ops.append(('read_until', delimiter, size))
+        self._not_after_close('read_until')
         self._maybe_fail('read_until')
         if delimiter == b'\r\n\r\n':
             self.v.check('header-block-read-with-the-configured-cap', size is self.opts.max_body_part_headers_size or size == self.opts.max_body_part_headers_size)
@@ -179,6 +194,8 @@ class FormStream:
         return self._ret(b'')
 
     def delimit(self, delimiter):
+        self.v.check('part-stream-ends-at-crlf-dash-boundary', delimiter == b'\r\n' + self.dash)
+        self._not_after_close('delimit')
         self.parts_delimited += 1
         return ('part-stream', self.parts_delimited)
 
@@ -199,7 +216,11 @@ def _iter_setup(target):
             ys = L['$yields']
             n = ys.length() if hasattr(ys, 'length') else len(ys)
             mx = L['self']._parse_options.max_body_part_count
-            return And(L['remaining_parts'] == mx - n, n >= 0, Or(mx == 0, n <= mx))
+            # delimiter discipline: the first boundary is searched as "--BOUNDARY" (it may open the body), every later one as CRLF + "--BOUNDARY"
+            dash = L['self']._dash_boundary
+            first = n == 0
+            return And(L['remaining_parts'] == mx - n, n >= 0, Or(mx == 0, n <= mx),
+                       Iff(L['prologue'], first), L['delimiter'] == Ite(first, dash, b'\r\n' + dash))
 
         part_ids = {}
 
@@ -249,6 +270,7 @@ def _form_iter(asgi):
         labels = v.ctx.labels
         if out.exc is not None:
             v.check('only-multipart-parse-error-escapes', out.exc.isa(MPE))
+            v.check('closing-delimiter-ends-the-form-without-an-error', not st.closing)
             desc = out.exc.kwargs.get('description') if out.exc.real is None else getattr(out.exc.real, 'description', '')
             if desc == 'maximum number of form body parts exceeded':
                 ys = st.frame.locals['$yields']
@@ -259,6 +281,7 @@ def _form_iter(asgi):
                 v.cover('count-limit-hit')
             v.cover('iteration-rejected')
             return
+        v.check('iteration-ends-only-at-the-closing-delimiter', st.closing)
         v.cover('iteration-finished')
 
     return h
@@ -766,6 +789,9 @@ KILLS = [
      'BodyPart.filename#filename-is-the-plain-parameter-or-none-without-an-extended-one'),
     (_MPF, "        charset = options.get('charset', self._parse_options.default_charset)\n", "        charset = options.get('charset', 'utf-8')\n",
      'BodyPart.get_text#text-is-the-part-decoded-with-its-charset-or-the-default'),
+    # the closing "--" is not looked at after the very first delimiter: a form of zero parts is rejected
+    (_MPF, "                if stream.peek(2) == b'--':\n", "                elif stream.peek(2) == b'--':\n", 'MultipartForm.__iter__#closing-delimiter-ends-the-form'),
+    (_AMPF, "                if await stream.peek(2) == b'--':\n", "                elif await stream.peek(2) == b'--':\n", 'MultipartForm._iterate_parts#closing-delimiter-ends-the-form'),
     (_AMPF, "        if content_type != 'text/plain':\n            return None\n", "        if content_type == 'text/plain':\n            return None\n",
      'asgi.multipart:BodyPart.get_text#text-is-returned-iff-the-media-type-is-text-plain'),
     (_AMPF, "            finally:\n                if handler.exhaust_stream:\n                    await self.stream.exhaust()\n", "            finally:\n                pass\n",
@@ -781,14 +807,19 @@ KILLS = [
      'MultipartFormHandler.deserialize_async#builds-the-form-class-of-its-interface'),
     (_MPF, "        return form_cls(stream, boundary.encode(), content_length, self.parse_options)", "        return form_cls(stream, boundary.encode(), None, self.parse_options)",
      '_deserialize_form#form-gets-the-content-length-and-the-handler-parse-options'),
+    # the delimiters handed to the reader used to be unobserved: after the first boundary the search no longer includes the leading CRLF
+    # (every part would end with a spurious CRLF); the ASGI twin delimits the part stream at the bare boundary
+    (_MPF, "                    delimiter = _CRLF + delimiter\n", "                    pass\n", 'MultipartForm.__iter__#'),
+    (_AMPF, "            yield BodyPart(stream.delimit(delimiter), headers, self._parse_options)", "            yield BodyPart(stream.delimit(self._dash_boundary), headers, self._parse_options)",
+     '_iterate_parts#part-stream-ends-at-crlf-dash-boundary'),
 ]
 
 ASSUMPTIONS = [
     'the buffered reader satisfies its flat-cursor contract (C14): read(n) returns the next min(n, rest) bytes; delimiter searches either succeed or raise DelimiterError',
     'a header block is observed through split(CRLF) as 0..2 lines, each with or without a ": " separator; header names are the concrete spellings '
     'Content-Type, CONTENT-Disposition, X-Custom, Content-Transfer-Encoding (two spellings), values arbitrary bytes',
-    'inputs left at one value: the boundary of the iteration harness is the concrete b"BOUNDARY" (it only travels to the reader stub, which does not '
-    'compare delimiters: the delimiter search is C14 / NOT_DECIDED below); parse_header() in _deserialize_form answers the main type '
+    'inputs left at one value: the boundary of the iteration harness is the concrete b"BOUNDARY" (it only travels to the reader stub, which checks that '
+    'the first search uses "--BOUNDARY" and every later search / part stream CRLF + "--BOUNDARY"; the delimiter search itself is C14 / NOT_DECIDED below); parse_header() in _deserialize_form answers the main type '
     '"multipart/form-data" (the function ignores it); the Content-Type text handed to _deserialize_form is a constant (it only reaches parse_header and an error message)',
 ]
 NOT_DECIDED = [
